@@ -398,6 +398,9 @@ func runC02(r *mon.Run, replay string) {
 	})
 	parallel(r.Pick(30, 300), func(i int) { runC02Checkpoint(r, uint64(700000+i)) })
 	parallel(r.Pick(12, 100), func(i int) { runC02Order(r, uint64(800000+i)) })
+	parallel(r.Pick(120, 1500), func(i int) { runC02SharedEnds(r, uint64(810000+i)) })
+	r.Floor("shared_end_histories", 50)
+	r.Floor("list_operations_modelled", 500)
 	r.Floor("twin_comparisons", 100)
 	r.Floor("reorgs_observed", 50)
 	r.Floor("order_scenarios", 5)
